@@ -422,6 +422,14 @@ func (e *End) park(g *Gate) error {
 	select {
 	case <-g.release:
 	case <-e.dead:
+	case <-e.peer.dead:
+		// the peer went away: a real transport's blocked write ends too (it fails,
+		// or has already succeeded if its bytes were delivered before it parked)
+		census.Bump()
+		if g.when == After {
+			return nil
+		}
+		return ErrPeer
 	}
 	census.Bump()
 	if c, cerr := e.isClosed(); c {
